@@ -29,8 +29,9 @@
         recursively), for well-formed monotone tables whose keys are line starts (`MapOK`);
         per rule: `rule<X>_ranges` (`Lemmas/InlineRanges3..6`), emphasis: `scanAndMatch_ranges`.
   4. OUTPUT OF `finish`
-     `no_placeholder_after_finish` — no `EmphMarker` at any depth; with an emphasis-like rule the
-        text normal form of C14 at every depth (`allNF_joinAllN`, from `C14.join_normal_form`).
+     `no_placeholder_after_finish` — no `EmphMarker` at any depth, and the text normal form of C14
+        at every depth: with an emphasis-like rule from `C14.join_normal_form` (`allNF_joinAllN`),
+        without one from `C14.push_no_adjacent` / `pop_no_adjacent` along the run (`text_induction`).
      `link_url_from_pipeline`, `fromPipeline_safe` — every emitted url is the empty default, an
         accepted result of the inline / autolink pipeline, or a stored reference destination.
 
@@ -45,15 +46,12 @@
      current state" is FALSE in general (`memo_level_dependent`); true form proved:
      `skip_token_memo_entry`.  A positive theorem under "the nesting limit is never reached"
      needs a simulation between runs at different levels; not done.
-   * text normal form of the output when NO emphasis-like rule is configured (then `finish` does
-     not join): needs "`trailing_text_push/pop` never leave adjacent or empty texts" through the
-     tokenizer (`C14.push_no_adjacent`, `C14.pop_no_adjacent` give the steps); only "no
-     `EmphMarker`" is proved for that case.
 -/
 import MdIt.Lemmas.InlineFuel
 import MdIt.Lemmas.InlineVals2
 import MdIt.Lemmas.InlineRanges7
 import MdIt.Lemmas.InlineLinkEnd
+import MdIt.Lemmas.InlineText2
 
 namespace MdIt.Inline
 open MdIt.InlineOps (Srcmap getSourcePosFor getMap byteLen slice)
@@ -351,14 +349,50 @@ theorem parseInline_vals (cfg : Cfg) {P : Val → Prop} (g : GoodP cfg P) {conte
     simp only [Except.ok.injEq] at h; subst h
     exact (vals_induction cfg g _).2 _ _ _ hst (by unfold ValsOK IState.init; trivial)
 
-/-- **No placeholder after `finish`.**  The output of the inline parser + post pass contains no
-    `EmphMarker`, at any depth.  When an emphasis-like rule is configured (so `FragmentsJoin` runs),
-    every sibling list of the output, at every depth, is in the text normal form of C14 — no marker,
-    no empty `Text`, no two adjacent `Text`s (`C14.join_normal_form` through the projection). -/
+theorem normalForm_of {l : List Node} (hv : AllValsList NotMarker l) (ht : TOK l) :
+    C14.NormalForm (eraseList l) := by
+  refine ⟨?_, ht.noEmpty, ht.noAdj⟩
+  intro n hn
+  rw [eraseList_eq_map] at hn
+  obtain ⟨a, ha, rfl⟩ := List.mem_map.mp hn
+  have := ((AllVals_eq NotMarker a).mp ((allValsList_iff _ _).mp hv a ha)).1
+  rw [erase_isMarker]
+  cases hval : a.val <;> simp_all [NotMarker]
+
+theorem allNF_of_aux (k : Nat) :
+    ∀ n, nsize n ≤ k → AllVals NotMarker n → DeepTOK n → C14.AllNF (erase n) := by
+  induction k with
+  | zero => intro n hn; rw [nsize_eq] at hn; omega
+  | succ k ih =>
+    intro n hn hv ht
+    rw [C14.AllNF_eq, erase_children]
+    rw [AllVals_eq] at hv
+    rw [DeepTOK_eq] at ht
+    refine ⟨normalForm_of hv.2 ht.1, ?_⟩
+    have hmem : ∀ (l : List Node), (∀ x ∈ l, C14.AllNF (erase x)) → C14.AllNFList (eraseList l) := by
+      intro l
+      induction l with
+      | nil => intro _; simp [eraseList, C14.AllNFList]
+      | cons y ys ihl =>
+        intro hl
+        simp only [eraseList, C14.AllNFList]
+        exact ⟨hl y (by simp), ihl (fun x hx => hl x (by simp [hx]))⟩
+    apply hmem
+    intro x hx
+    apply ih
+    · rw [nsize_eq] at hn; have := nsize_le_of_mem hx; omega
+    · exact (allValsList_iff _ _).mp hv.2 x hx
+    · exact (deepTOKList_iff _).mp ht.2 x hx
+
+/-- **No placeholder after `finish`; text normal form.**  The output of the inline parser + post
+    pass contains no `EmphMarker` at any depth, and every sibling list of the output, at every
+    depth, is in the text normal form of C14 — no marker, no empty `Text`, no two adjacent `Text`s.
+    With an emphasis-like rule configured this is `C14.join_normal_form` for `FragmentsJoin::run`
+    (through the projection `erase`); without one no join runs and the raw tokenizer output is
+    already in normal form (`C14.push_no_adjacent`, `C14.pop_no_adjacent` along the run). -/
 theorem no_placeholder_after_finish (cfg : Cfg) {content : List Char} {mapping : Srcmap}
     {cs : List Node} (h : parseFinish cfg content mapping = .ok cs) :
-    AllValsList NotMarker cs ∧
-    (cfg.hasEmph = true → C14.NormalForm (eraseList cs) ∧ C14.AllNFList (eraseList cs)) := by
+    AllValsList NotMarker cs ∧ C14.NormalForm (eraseList cs) ∧ C14.AllNFList (eraseList cs) := by
   unfold parseFinish at h
   split at h
   · simp at h
@@ -369,12 +403,30 @@ theorem no_placeholder_after_finish (cfg : Cfg) {content : List Char} {mapping :
     | true =>
       simp only [if_true]
       have hnf := allNF_joinAllN (rootOf cs0)
-      refine ⟨allValsList_erase_aux _ _ (Nat.le_refl _) hnf, fun _ => ?_⟩
+      refine ⟨allValsList_erase_aux _ _ (Nat.le_refl _) hnf, ?_⟩
       rw [C14.AllNF_eq, erase_children] at hnf
       exact hnf
     | false =>
       simp only [Bool.false_eq_true, if_false]
-      exact ⟨parseInline_vals cfg (notMarker_good cfg he) hp, by intro h; cases h⟩
+      have hv := parseInline_vals cfg (notMarker_good cfg he) hp
+      have hne : ∀ id ∈ cfg.chain, id.isEmph = false := by
+        intro id hid
+        unfold Cfg.hasEmph at he
+        rw [List.any_eq_false] at he
+        have := he id hid
+        simpa using this
+      have ht : TOK cs0 ∧ DeepTOKList cs0 := by
+        unfold parseInline tokenize at hp
+        split at hp
+        · simp at hp
+        · next st hst =>
+          simp only [Except.ok.injEq] at hp; subst hp
+          exact text_induction cfg hne _ _ _ _ hst ⟨tok_nil, trivial⟩
+      have hroot : C14.AllNF (erase (rootOf cs0)) :=
+        allNF_of_aux _ _ (Nat.le_refl _) (by rw [AllVals_eq]; exact ⟨trivial, hv⟩)
+          (by rw [DeepTOK_eq]; exact ht)
+      rw [C14.AllNF_eq, erase_children] at hroot
+      exact ⟨hv, hroot⟩
 
 /-- where an emitted url comes from: the empty default, the inline pipeline, the autolink
     pipeline, or the reference map -/
